@@ -204,7 +204,7 @@ class Verdict:
         return True
 
     def broke(self, name, detail=""):
-        self.broken.append({"name": name, "detail": detail[-2000:]})
+        self.broken.append({"name": name, "detail": detail[:3000]})
 
     def finish(self, coverage, assumptions=None):
         """Prints KNOWN-FINDING / VIOLATION lines, writes evidence and replay files, returns the exit code."""
@@ -305,3 +305,15 @@ def parse_args(argv):
     if a.tier not in ("quick", "thorough"):
         a.tier = "quick"
     return a
+
+
+def first_diff(a, b, ctx=160):
+    """Context around the first position at which two byte strings differ."""
+    if a is None or b is None:
+        return {"a": None if a is None else a[:ctx].decode("utf-8", "replace"), "b": None if b is None else b[:ctx].decode("utf-8", "replace")}
+    n = min(len(a), len(b))
+    i = 0
+    while i < n and a[i] == b[i]:
+        i += 1
+    lo = max(0, i - ctx)
+    return {"at": i, "a": a[lo:i + ctx].decode("utf-8", "replace"), "b": b[lo:i + ctx].decode("utf-8", "replace")}
